@@ -7,16 +7,26 @@ dumped tables `Gen/TypeRules.lean`, `Gen/Builtins.lean` (regenerated from /repo 
 
 * `gen_*`: the tables of the real checker equal the closed forms the model uses (whole tables, by
   `decide`), and equal the documented tables except on an explicit list of entries (D-09d).
-* `c09_full` is the property at full strength; it is FALSE of the current code (`c09_full_is_false`,
-  witness D-09b; D-09c and D-09d are fixed).
+* `c09_full` is the property at full strength.  It was false of the pinned code because of D-09b
+  (`c09_full_pinned_is_false`; the fixed code accepts that witness, `witnessReturnScope_accepted`), and
+  it is still FALSE of the current code for another reason (`c09_full_is_false`, witness D-09f: a
+  recovery type of `infer_expr_type` becomes a function's result type when the result types of a
+  block do not settle within the rounds).
 * `c09_partial`: for EVERY program the diagnostics of the scoping rules (undeclared variable /
   placeholder / assignment target / function, arity of user and global builtin functions,
   `comot`/`next` outside a loop of the same function body, `return` outside a function, duplicate
   function, duplicate parameter, builtin name declared) are exactly the violations of the
   specification: same rule, same span, same order; hence acceptance of the scoping fragment, the
   per-rule "reported iff violated", and the category named by the diagnostic.
+* Typing rules: the equation `typeDs diagnostics = typeViolations` (`c09_typing_eq`) is false
+  (`c09_typing_eq_is_false`): after a first diagnostic the checker reports follow-up errors of enclosing
+  operators where the specification lists the root cause only.  What holds, for every program whose
+  `return` expressions are well typed where the result types are determined (`Spec.ReturnsTyped`, the
+  explicit hypothesis that excludes D-09f): checker and specification are in step (`c09_in_step`) —
+  hence `c09_full_partial` (rejected iff some documented rule is broken), `c09_typing_rejected`,
+  `c09_typing_accepted`, `c09_typing_category`; one decided witness per typing rule.
 -/
-import NaijaVerif.Lemmas.ResolveScope
+import NaijaVerif.Lemmas.ResolveTypesStmt
 import NaijaVerif.Gen.TypeRules
 import NaijaVerif.Gen.Builtins
 
@@ -70,6 +80,20 @@ theorem gen_builtins_match_model :
 span (D-18). -/
 theorem gen_behaviour_probes :
     Gen.Builtins.inLoopLeaksIntoFunctions = false ∧ Gen.Builtins.localsLenIsSpan = true := by
+  decide
+
+/-- The code is the fixed one with respect to D-09b: probed on the real checker, the result type of a
+function is NOT taken from a same-named variable / function of the enclosing code where the function
+(own `make`, parameter, `make` in a nested block or after the `return`, own function, function of a
+nested block) or its defining block (`make` before or after the definition) binds the name — and it IS
+where only the enclosing code binds it (a nested function's bindings are not the function's own). -/
+theorem gen_return_type_probes :
+    Gen.Builtins.returnTypeProbes =
+      [(b!"own-make", false), (b!"parameter", false), (b!"nested-block-make", false),
+       (b!"make-after-return", false), (b!"block-make-before", false), (b!"block-make-after", false),
+       (b!"own-function", false), (b!"nested-block-function", false),
+       (b!"enclosing-variable", true), (b!"enclosing-function", true), (b!"inner-function-make", true),
+       (b!"inner-function-parameter", true), (b!"inner-function-function", true)] := by
   decide
 
 /-! ### … and the documented tables -/
@@ -131,8 +155,8 @@ def c09_full : Prop := ∀ p : Block, (resolve p).diags.filter isError = [] ↔ 
 private def sp : Span := ⟨0, 0⟩
 
 /-- D-09b: `make x get "s"  start  do f() start make x get 1 return x end  shout(f() minus 1)  end` —
-the return type of `f` is inferred at block entry in the ENCLOSING scope, where `x` is a string:
-a valid program is rejected. -/
+the PINNED code inferred the return type of `f` at block entry with the plain scopes of the enclosing
+code, where `x` is a string: a valid program was rejected. -/
 def witnessReturnScope : Block :=
   .mk [.assign (b!"x") sp (.str (.static (b!"s")) sp) none none sp,
        .block (.mk [
@@ -142,8 +166,33 @@ def witnessReturnScope : Block :=
            [.binary .minus (.call (.var (b!"f") none sp) [] none sp) (.num (b!"1") sp) sp] none sp) none sp] sp)
          none sp] sp
 
-theorem witnessReturnScope_wf_rejected :
-    WF witnessReturnScope ∧ (resolve witnessReturnScope).diags.map (·.kind) = [.typeMismatch] := by
+/-- The fixed code accepts the D-09b witness … -/
+theorem witnessReturnScope_accepted :
+    WF witnessReturnScope ∧ (resolve witnessReturnScope).diags = [] := by
+  decide +kernel
+
+/-- … which the pinned return-type inference rejected. -/
+theorem witnessReturnScope_pinned_rejected :
+    WF witnessReturnScope ∧ (resolvePinnedRet witnessReturnScope).diags.map (·.kind) = [.typeMismatch] := by
+  decide +kernel
+
+/-- `do f() start return "s" add h() end  do h() start return h() na 1 end  shout(f() minus 1)` —
+the result type of `h` alternates between boolean and dynamic from round to round, and the (two)
+rounds end with `h` dynamic; in the last round `"s" add h()` was typed with `h` boolean, which the
+operator table rejects — yet `infer_expr_type` still answers *string* for it (a string operand makes
+`add` a string), so the checker holds `f` to be a string and rejects `f() minus 1`, while by the
+documented rules an expression without a static type is dynamic and the program breaks no rule. -/
+def witnessRecoveryType : Block :=
+  .mk [.fnDef (b!"f") sp [] (.mk [.ret (some (.binary .add (.str (.static (b!"s")) sp)
+          (.call (.var (b!"h") none sp) [] none sp) sp)) none sp] sp) none none sp,
+       .fnDef (b!"h") sp [] (.mk [.ret (some (.binary .eq (.call (.var (b!"h") none sp) [] none sp)
+          (.num (b!"1") sp) sp)) none sp] sp) none none sp,
+       .expr (.call (.var (b!"shout") none sp)
+         [.binary .minus (.call (.var (b!"f") none sp) [] none sp) (.num (b!"1") sp) ⟨7, 19⟩] none sp) none sp] sp
+
+theorem witnessRecoveryType_wf_rejected :
+    WF witnessRecoveryType ∧
+      (resolve witnessRecoveryType).rdiags.map (fun d => (d.rule, d.span)) = [(.tyBinary, ⟨7, 19⟩)] := by
   decide +kernel
 
 /-! ### What holds for every program: the scoping rules -/
@@ -161,9 +210,23 @@ theorem diags_all_errors (p : Block) : (resolve p).diags.filter isError = (resol
 /-- The full-strength statement is false of the current code. -/
 theorem c09_full_is_false : ¬ c09_full := by
   intro h
-  have h1 := (h witnessReturnScope).mpr witnessReturnScope_wf_rejected.1
-  have h2 := witnessReturnScope_wf_rejected.2
-  rw [diags_all_errors] at h1
+  have h1 := (h witnessRecoveryType).mpr witnessRecoveryType_wf_rejected.1
+  have h2 := witnessRecoveryType_wf_rejected.2
+  rw [diags_all_errors, diags_eq, List.map_eq_nil_iff] at h1
+  rw [h1] at h2
+  exact absurd h2 (by decide)
+
+/-- C09 at full strength for the PINNED return-type inference (D-09b). -/
+def c09_full_pinned : Prop := ∀ p : Block, (resolvePinnedRet p).diags.filter isError = [] ↔ WF p
+
+/-- D-09b stays documented: the pinned inference rejected a program that breaks no rule. -/
+theorem c09_full_pinned_is_false : ¬ c09_full_pinned := by
+  intro h
+  have h1 := (h witnessReturnScope).mpr witnessReturnScope_pinned_rejected.1
+  have h2 := witnessReturnScope_pinned_rejected.2
+  have hall : (resolvePinnedRet witnessReturnScope).diags.filter isError = (resolvePinnedRet witnessReturnScope).diags := by
+    decide +kernel
+  rw [hall] at h1
   rw [h1] at h2
   exact absurd h2 (by decide)
 
@@ -226,6 +289,99 @@ theorem c09_partial_iff (p : Block)
     | cons d ds =>
       exact absurd (hall d (by simp [hr])) (by simpa using this d (by simp [hr]))
 
+/-! ### The typing rules -/
+
+/-- The typing half as an equation (rule, span, order), like `c09_partial` for the scoping half. -/
+def c09_typing_eq : Prop := ∀ p : Block, typeDs (resolve p).rdiags = typeViolations p
+
+/-- `shout((true add 1) add 2)`: the specification lists the inner application (its operands are typed
+and the table rejects them); the checker also reports the outer one, whose left operand has no type. -/
+def witnessCascade : Block :=
+  .mk [.expr (.call (.var (b!"shout") none sp)
+    [.binary .add (.binary .add (.bool true sp) (.num (b!"1") sp) ⟨7, 17⟩) (.num (b!"2") sp) ⟨6, 24⟩] none sp) none sp] sp
+
+theorem witnessCascade_diags :
+    typeDs (resolve witnessCascade).rdiags = [(.tyBinary, ⟨7, 17⟩), (.tyBinary, ⟨6, 24⟩)] ∧
+    typeViolations witnessCascade = [(.tyBinary, ⟨7, 17⟩)] ∧ ReturnsTyped witnessCascade := by
+  decide +kernel
+
+/-- The equation is false: the checker's follow-up diagnostics are not violations. -/
+theorem c09_typing_eq_is_false : ¬ c09_typing_eq := by
+  intro h
+  have := h witnessCascade
+  rw [witnessCascade_diags.1, witnessCascade_diags.2.1] at this
+  exact absurd this (by decide)
+
+theorem rdiags_nil_iff (p : Block) : (resolve p).diags.filter isError = [] ↔ (resolve p).rdiags = [] := by
+  rw [diags_all_errors, diags_eq, List.map_eq_nil_iff]
+
+theorem scoping_diag_violation (p : Block) (h : ∃ d ∈ (resolve p).rdiags, d.rule.isScoping = true) :
+    scopeViolations p ≠ [] := by
+  obtain ⟨d, hd, hs⟩ := h
+  rw [← c09_partial]
+  intro hnil
+  simp only [scopeDs, List.map_eq_nil_iff, List.filter_eq_nil_iff] at hnil
+  exact hnil d hd hs
+
+/-- **C09, typing rules, in step**: for every program whose `return` expressions are well typed where
+the result types are determined, either the checker reports nothing and no typing rule is broken, or
+the checker rejects and the specification lists a violation (of a typing or of a scoping rule). -/
+theorem c09_in_step (p : Block) (h : ReturnsTyped p) :
+    ((resolve p).rdiags = [] ∧ typeViolations p = []) ∨
+    ((resolve p).rdiags ≠ [] ∧ (typeViolations p ≠ [] ∨ scopeViolations p ≠ [])) := by
+  rcases resolve_lock p h with hc | ⟨hne, hv | hs⟩
+  · exact Or.inl hc
+  · exact Or.inr ⟨hne, Or.inl hv⟩
+  · exact Or.inr ⟨hne, Or.inr (scoping_diag_violation p hs)⟩
+
+/-- **C09 under the explicit hypothesis**: a program whose `return` expressions are well typed where
+the result types are determined is rejected before anything runs iff it breaks a documented static
+rule. -/
+theorem c09_full_partial (p : Block) (h : ReturnsTyped p) :
+    (resolve p).diags.filter isError = [] ↔ WF p := by
+  rw [rdiags_nil_iff]
+  constructor
+  · intro hacc
+    refine ⟨c09_accepted_scoping_wf p ((rdiags_nil_iff p).mpr hacc), ?_⟩
+    rcases c09_in_step p h with hc | hd
+    · exact hc.2
+    · exact absurd hacc hd.1
+  · rintro ⟨hs, ht⟩
+    rcases c09_in_step p h with hc | ⟨_, hv | hv⟩
+    · exact hc.1
+    · exact absurd ht hv
+    · exact absurd hs hv
+
+/-- A program that breaks a typing rule is rejected. -/
+theorem c09_typing_rejected (p : Block) (h : ReturnsTyped p) (hv : typeViolations p ≠ []) :
+    (resolve p).diags.filter isError ≠ [] :=
+  fun hacc => hv ((c09_full_partial p h).mp hacc).2
+
+/-- A program that breaks no rule gets no diagnostic from the checker. -/
+theorem c09_typing_accepted (p : Block) (h : ReturnsTyped p) (hs : scopeViolations p = [])
+    (ht : typeViolations p = []) : (resolve p).diags = [] := by
+  rw [← diags_all_errors]; exact (c09_full_partial p h).mpr ⟨hs, ht⟩
+
+def typingKinds : List DiagKind := [.typeMismatch, .undeclaredIdentifier, .functionCallArity]
+
+/-- The category: a program that breaks typing rules only is rejected, and every diagnostic it gets is
+one of a typing rule, in a typing category (`Type mismatch`; `Undeclared identifier` for an unknown
+method, `Invalid parameter count` for a method's argument count). -/
+theorem c09_typing_category (p : Block) (h : ReturnsTyped p) (hs : scopeViolations p = [])
+    (hv : typeViolations p ≠ []) :
+    (resolve p).diags ≠ [] ∧
+      ∀ d ∈ (resolve p).rdiags, d.rule.isScoping = false ∧ d.toDiag.sev = .error ∧ d.toDiag.kind ∈ typingKinds := by
+  constructor
+  · have := c09_typing_rejected p h hv
+    rwa [diags_all_errors] at this
+  · intro d hd
+    have hns : d.rule.isScoping = false := by
+      cases hsc : d.rule.isScoping
+      · rfl
+      · exact absurd hs (scoping_diag_violation p ⟨d, hd, hsc⟩)
+    refine ⟨hns, rfl, ?_⟩
+    cases hr : d.rule <;> simp [hr, Rule.isScoping] at hns <;> simp [RDiag.toDiag, hr, Rule.kind, typingKinds]
+
 /-! ### Non-vacuity -/
 
 /-- `jasi (true) start do f() start comot end end` — the D-09a shape: rejected by the (fixed) code,
@@ -250,5 +406,110 @@ def wellFormed : Block :=
 example : (resolve wellFormed).diags = [] ∧ WF wellFormed := by decide +kernel
 example : (∀ d ∈ (resolve wellFormed).rdiags, d.rule.isScoping = true) ↔ typeViolations wellFormed = [] := by
   decide +kernel
+
+example : ReturnsTyped wellFormed ∧ ReturnsTyped witnessReturnScope ∧ ReturnsTyped comotInFunctionInLoop := by
+  decide +kernel
+
+/-- The hypothesis `ReturnsTyped` is what fails on the D-09f witness. -/
+example : ¬ ReturnsTyped witnessRecoveryType := by decide +kernel
+
+/-! One program per typing rule: the checker reports exactly the violation the specification lists. -/
+
+private def str (s : Bytes) : Expr := .str (.static s) sp
+private def num (s : Bytes) : Expr := .num s sp
+private def var (s : Bytes) : Expr := .var s none sp
+private def callV (f : Bytes) (args : List Expr) : Expr := .call (.var f none sp) args none sp
+private def shout (e : Expr) : Stmt := .expr (callV (b!"shout") [e]) none sp
+private def make (x : Bytes) (e : Expr) : Stmt := .assign x sp e none none sp
+private def at' : Span := ⟨1, 2⟩
+private def fdef (f : Bytes) (ps : List Bytes) (body : List Stmt) : Stmt :=
+  .fnDef f sp (ps.map fun p => ⟨p, sp, none⟩) (.mk body sp) none none sp
+
+/-- Exactly one violation, of rule `k` at `at'`, on both sides; hypothesis of `c09_full_partial` satisfied. -/
+private def only (k : Rule) (s : Span) (p : Block) : Prop :=
+  typeDs (resolve p).rdiags = [(k, s)] ∧ typeViolations p = [(k, s)] ∧ scopeViolations p = [] ∧ ReturnsTyped p
+
+private instance (k : Rule) (s : Span) (p : Block) : Decidable (only k s p) := by unfold only; infer_instance
+
+-- `shout(1 minus "a")`
+example : only .tyBinary at' (.mk [shout (.binary .minus (num (b!"1")) (str (b!"a")) at')] sp) := by decide +kernel
+-- `shout(not 1)`
+example : only .tyUnary at' (.mk [shout (.unary .not (num (b!"1")) at')] sp) := by decide +kernel
+-- `if to say (1) start end`
+example : only .tyCond at' (.mk [.ifS (.num (b!"1") at') (.mk [] sp) none none sp] sp) := by decide +kernel
+-- `shout(1[0])`
+example : only .tyIndexBase at' (.mk [shout (.index (num (b!"1")) (num (b!"0")) sp at')] sp) := by decide +kernel
+-- `shout([1][true])`
+example : only .tyIndexIdx at' (.mk [shout (.index (.array [num (b!"1")] sp) (.bool true sp) at' sp)] sp) := by
+  decide +kernel
+-- `make c get command(1)`
+example : only .tyCommandArg at' (.mk [make (b!"c") (.call (.var (b!"command") none sp) [num (b!"1")] none at')] sp) := by
+  decide +kernel
+-- `shout("abc".find(5))`
+example : only .tyMethodArg at'
+    (.mk [shout (.call (.member (str (b!"abc")) (b!"find") sp at') [num (b!"5")] none sp)] sp) := by decide +kernel
+-- `command("echo").arg("hello")`
+example : only .tyMutReceiver at'
+    (.mk [.expr (.call (.member (callV (b!"command") [str (b!"echo")]) (b!"arg") sp at') [str (b!"hello")] none sp)
+            none sp] sp) := by decide +kernel
+-- `shout("a".push(1))`
+example : only .methodUnknown at'
+    (.mk [shout (.call (.member (str (b!"a")) (b!"push") sp at') [num (b!"1")] none sp)] sp) := by decide +kernel
+-- `shout("a".len(1))`
+example : only .arityMethod at'
+    (.mk [shout (.call (.member (str (b!"a")) (b!"len") sp at') [num (b!"1")] none sp)] sp) := by decide +kernel
+-- `make x get "s"  shout(x.len)`
+example : only .bareMember at'
+    (.mk [make (b!"x") (str (b!"s")), shout (.member (var (b!"x")) (b!"len") sp at')] sp) := by decide +kernel
+-- `do f() start return 1 end  shout(f()())`
+example : only .badCallee at'
+    (.mk [fdef (b!"f") [] [.ret (some (num (b!"1"))) none sp],
+          shout (.call (callV (b!"f") []) [] none at')] sp) := by decide +kernel
+-- `do f() start return [1] end  f()[0] get 2`
+example : only .badIndexRoot at'
+    (.mk [fdef (b!"f") [] [.ret (some (.array [num (b!"1")] sp)) none sp],
+          .assignIndex (.index (callV (b!"f") []) (num (b!"0")) sp sp) (num (b!"2")) none at'] sp) := by decide +kernel
+-- the result type of a function from a variable only the enclosing code binds:
+-- `make x get "s"  start  do f() start return x end  shout(f() minus 1)  end`
+example : only .tyBinary at'
+    (.mk [make (b!"x") (str (b!"s")),
+          .block (.mk [fdef (b!"f") [] [.ret (some (var (b!"x"))) none sp],
+                       shout (.binary .minus (callV (b!"f") []) (num (b!"1")) at')] sp) none sp] sp) := by
+  decide +kernel
+
+/-- A well-typed program using every operator class, indexing, methods, conditions, a typed function
+result and an index assignment: accepted, well-formed, hypothesis satisfied.
+```
+make a get 1   make s get "x"   make b get true   make arr get [1, 2]
+do f(p) start return p end      do g() start return a end
+shout(((a add 2) minus (a times 3)) divide (2 mod 5))      shout((s add "y") add a)
+shout(((a pass 1) and (s na "x")) or (not b))              shout((minus a) small pass g())
+shout(arr[0])   shout(s.len())  shout(null na a)           shout(f(1) minus 1)
+if to say (b) start shout("{a}") end                       jasi (a small pass 3) start a get a add 1 end
+arr[0] get 5    make c get command("echo")   c.arg("hi")
+``` -/
+def wellTyped : Block :=
+  .mk [make (b!"a") (num (b!"1")), make (b!"s") (str (b!"x")), make (b!"b") (.bool true sp),
+       make (b!"arr") (.array [num (b!"1"), num (b!"2")] sp),
+       fdef (b!"f") [b!"p"] [.ret (some (var (b!"p"))) none sp],
+       fdef (b!"g") [] [.ret (some (var (b!"a"))) none sp],
+       shout (.binary .divide (.binary .minus (.binary .add (var (b!"a")) (num (b!"2")) sp)
+                (.binary .times (var (b!"a")) (num (b!"3")) sp) sp) (.binary .mod (num (b!"2")) (num (b!"5")) sp) sp),
+       shout (.binary .add (.binary .add (var (b!"s")) (str (b!"y")) sp) (var (b!"a")) sp),
+       shout (.binary .or (.binary .and (.binary .gt (var (b!"a")) (num (b!"1")) sp)
+                (.binary .eq (var (b!"s")) (str (b!"x")) sp) sp) (.unary .not (var (b!"b")) sp) sp),
+       shout (.binary .lt (.unary .neg (var (b!"a")) sp) (callV (b!"g") []) sp),
+       shout (.index (var (b!"arr")) (num (b!"0")) sp sp),
+       shout (.call (.member (var (b!"s")) (b!"len") sp sp) [] none sp),
+       shout (.binary .eq (.null sp) (var (b!"a")) sp),
+       shout (.binary .minus (callV (b!"f") [num (b!"1")]) (num (b!"1")) sp),
+       .ifS (var (b!"b")) (.mk [shout (.str (.interp [.var (b!"a") none]) sp)] sp) none none sp,
+       .loop (.binary .lt (var (b!"a")) (num (b!"3")) sp)
+         (.mk [.assignExisting (b!"a") sp (.binary .add (var (b!"a")) (num (b!"1")) sp) none none sp] sp) none sp,
+       .assignIndex (.index (var (b!"arr")) (num (b!"0")) sp sp) (num (b!"5")) none sp,
+       make (b!"c") (callV (b!"command") [str (b!"echo")]),
+       .expr (.call (.member (var (b!"c")) (b!"arg") sp sp) [str (b!"hi")] none sp) none sp] sp
+
+example : (resolve wellTyped).diags = [] ∧ WF wellTyped ∧ ReturnsTyped wellTyped := by decide +kernel
 
 end NaijaVerif.C09
